@@ -27,7 +27,7 @@ REQUIRED = ["op.occupancy_at_time", "op.state_at_time", "op.occupancies_at_time_
             "goal-lanelets.defaultdict", "default-constructed-obstacle", "fixture", "light-with-successors",
             "goal-check.scenario-state-with-vx-vy-orientation", "goal_reached.scenario-trajectory",
             "uncertain-regions-under-off-centre-shape", "registered-obstacles-on-a-lanelet-chain", "op.merge_queries",
-            "query-answers-rechecked"]
+            "query-answers-rechecked", "op.cutout_copy"]
 ASSUMPTIONS = ["private caches are not compared (C11 covers them where observable)",
                "an exception raised by a read-only operation is not judged here (totality is C19 / C04 / C08 business)"]
 SHARDS = {"quick": 4, "thorough": 16}
@@ -36,7 +36,7 @@ OPS = ["occupancy_at_time", "state_at_time", "occupancies_at_time_step", "obstac
        "obstacles_by_role_and_type", "obstacles_by_position_intervals", "find_lanelet_by_position", "find_lanelet_by_shape",
        "contains_points", "map_obstacles_to_lanelets", "lanelet_geometry", "successors_in_range", "light_state",
        "is_reached", "goal_reached", "eq", "hash", "copy", "deepcopy", "pickle", "str", "draw", "export_xml", "export_pb",
-       "occupancy_set", "merge_queries"]
+       "occupancy_set", "merge_queries", "cutout_copy"]
 
 
 class ArgChanged(Exception):
@@ -146,6 +146,18 @@ def run(ctx):
                 _La.all_lanelets_by_merging_successors_from_lanelet(ring, net, max_length=1e4)
                 _La.all_lanelets_by_merging_predecessors_from_lanelet(ring, net, max_length=1e4)
                 _La.merge_lanelets(net.find_lanelet_by_id(8104), ring)
+        elif op == "cutout_copy":
+            # a NEW network cut out of this one (by a region / by lanelet types / a plain copy): the source is only read
+            from commonroad.common.common_lanelet import LaneletType as _LT
+            from commonroad.geometry.shape import Rectangle as _Rc
+            from commonroad.scenario.lanelet import LaneletNetwork as _LN
+            if net.lanelets:
+                la_ = rng.choice(net.lanelets)
+                c_ = la_.center_vertices[len(la_.center_vertices) // 2]
+                _LN.create_from_lanelet_network(net, _Rc(rng.choice([2.0, 8.0]), 2.0, np.array([float(c_[0]), float(c_[1])]), 0.0))
+                _LN.create_from_lanelet_network(net, None, {rng.choice(list(_LT))})
+                _LN.create_from_lanelet_network(net)
+                _LN.create_from_lanelet_list(net.lanelets[:2])
         elif op == "light_state":
             for tl in net.traffic_lights:
                 tl.get_state_at_time_step(t)
